@@ -128,6 +128,7 @@ let show_verdict = function
       | 1 -> "fails:C09-set-bytes-length"
       | 2 -> "fails:C09-empty-datums"
       | 3 -> "fails:C09-stale-input-language"
+      | 4 -> "fails:C09-noop-calc-keeps-hash"
       | _ -> "fails:-")
 
 let field (impl : string list) (name : string) : string option =
